@@ -424,7 +424,10 @@ def generate(rng, profile):
             else:
                 ent['org'] = ('blank',) if rng.random() < 0.5 else ('value', addr)
         for i in range(n):
-            if ctl in 'bwtsgui' and rng.random() < 0.8:
+            if profile == 'rigid' and rng.random() < 0.04:
+                t = rng.choice(sorted(ALT_BYTES))          # instructions with more than one valid encoding (for @bytes)
+                shape = ('plain', t, 1 if t in ('NOP', 'LD B,B') else 2)
+            elif ctl in 'bwtsgui' and rng.random() < 0.8:
                 sh = g.def_shape()
                 shape = ('def', sh, sh[2])
             else:
@@ -498,7 +501,7 @@ def generate(rng, profile):
                 if r < 0.06 and not ln.op.rel and (profile == 'rigid' or not ln.op.refs):
                     ln.pre.append(('bytes', 'same'))
                     g.features.add('bytes-same')
-                elif r < 0.09 and profile == 'rigid' and ln.op.text in ALT_BYTES:
+                elif profile == 'rigid' and ln.op.text in ALT_BYTES and (r < 0.09 or rng.random() < 0.6):
                     ln.pre.append('@bytes=' + ','.join(g.num(b) for b in rng.choice(ALT_BYTES[ln.op.text])))
                     ln.alt = True
                     alt_bytes.append([ln.addr, ln.op.size])
